@@ -27,8 +27,9 @@ import (
 )
 
 func c11Patterns(tier string) []string {
-	atoms := []string{"a", "b", "x", "-", "]", "^", "{", "}", ",", "0", "1", ".", `\.`, `\d`, `\w`, "[ab]", "[^a]", "[a-c]", "[a]", "[{]", "[-]", "[0-9]", `[\d]`, "[a-a]", "aa", "ab"}
-	ops := []string{"", "*", "+", "?", "*?", "{0}", "{1}", "{0,1}", "{1,}", "{0,}", "{2}", "{1,1}"}
+	atoms := []string{"a", "b", "x", "-", "]", "^", "{", "}", ",", "0", "1", ".", `\.`, `\d`, `\w`, "[ab]", "[^a]", "[a-c]", "[a]", "[{]", "[-]", "[0-9]", `[\d]`, "[a-a]", "aa", "ab",
+		"(a)", "(?:a)", "(ab)", `\,`, `\{`, "[}]", "[,]"}
+	ops := []string{"", "*", "+", "?", "*?", "{0}", "{1}", "{0,1}", "{1,}", "{0,}", "{2}", "{1,1}", "+?", "??", "{1}?", "{0}?", "{0,1}?", "{1,}?", "{2}?"}
 	var terms []string
 	for _, a := range atoms {
 		for _, o := range ops {
@@ -70,6 +71,15 @@ func c11Patterns(tier string) []string {
 			}
 		}
 	}
+	// text that only looks like a repetition once brackets or escapes are removed
+	for _, pre := range []string{"a", "ab", "(a)", "[a]"} {
+		for _, mid := range []string{"[{]", `\{`, "{"} {
+			for _, tail := range []string{"2}", "1,2}", `1\,2}`, "1[,]2}", "1,}", ",2}", "2[}]", `2\}`} {
+				add(pre + mid + tail)
+				add(pre + mid + tail + "b")
+			}
+		}
+	}
 	// literal alternations with common prefixes / suffixes (factoring rules)
 	words := []string{"http", "https", "ab", "abc", "xab", "a", "ba", "aab", "abb"}
 	for _, w1 := range words {
@@ -77,6 +87,26 @@ func c11Patterns(tier string) []string {
 			add(w1 + "|" + w2)
 			add("(?:" + w1 + "|" + w2 + ")x")
 			add("(" + w1 + "|" + w2 + ")")
+		}
+	}
+	// alternations of single characters and character classes, including classes whose
+	// '-' / ']' is literal only because of where it stands (merging rules)
+	classes := []string{"[a-]", "[-z]", "[]]", "[]a]", "[0-9+-]", "[Ee]", "[ab]", "[^a]", "[a-c]", `[\d]`, `[a\-]`, "[z-]", "[-]", "[a^]"}
+	chars := []string{"a", "z", "b", "-", "]", "^", "e"}
+	var alts []string
+	alts = append(alts, classes...)
+	alts = append(alts, chars...)
+	for _, x := range alts {
+		for _, y := range alts {
+			add(x + "|" + y)
+			add("(?:" + x + "|" + y + ")")
+			add("(" + x + "|" + y + ")b")
+			if tier == "thorough" {
+				for _, z := range chars {
+					add(x + "|" + y + "|" + z)
+					add(z + "|" + x + "|" + y)
+				}
+			}
 		}
 	}
 	var out []string
